@@ -24,8 +24,13 @@ RULE = ('templates = trees of ConstantPT holds (1-3 channels, every channel orde
         'collide), SequencePT, RepetitionPT (count 0,1,2,3), ForLoopPT (start/stop/step incl. negative step, length '
         '0..4, non-aligned stop), holds rendered directly or through MappingPT (affine re-parametrisation), loop-index '
         'rebinding mappings (scopes resolved by the model), registers shared across depths, zero durations, zero coefficients '
-        'through parameters; exhaustive small nests (thorough: depth 3, 2-3 channels in every order); real pipeline '
-        'create_program(program_builder=LinSpaceBuilder) -> to_increment_commands -> LinSpaceVM.run, observation = '
+        'through parameters; exhaustive small nests (thorough: depth 3, 2-3 channels in every order); deterministic families '
+        '(c17_fam.py) for stateful / aliasing / name-coincidence classes: repetition whose body sweeps a register with another '
+        'entry state, second hold starting bit-exactly at the register value, bare loop index (shared scope object) as left '
+        'operand of a sum with a later use in template-dict order, amplitude != 1 and offset != 0 on Set-only and Increment '
+        'programs, swap mappings, shadowed loop indices, indices called like channels; reuse of template / program objects; '
+        'index-dependent hold durations (refusal expected).  Real pipeline '
+        'create_program(program_builder=LinSpaceBuilder) -> to_increment_commands -> LinSpaceVM, observation = '
         'history + total time; independent oracle = unrolled default Loop program.  scale cases: the same through '
         'ProgramEntry(program_type=Linspace) with power-of-two amplitudes, dyadic offsets and unused (None) outputs.  '
         'Non-trivial = at least one iteration of length >= 2 with an index-dependent voltage; distinct = canonical JSON.')
@@ -35,13 +40,18 @@ TRUSTED = [
     'default Loop program on every case, so a rendering error shows as a disagreement), exact float->rational conversion',
     'qupulse default program builder (Loop) and ConstantWaveform.constant_value as the reference staircase',
     'sympy/lambdify evaluation of affine expressions over SimpleExpression (not modelled; observed through the builder output)',
+    'translate/py2gallina_c17.py: primitive table coq/C17/GenLib.v (dict = insertion-ordered association list, list index = '
+    'nth_error, float equality on Q), attribute types of the schemas, value semantics (aliasing is invisible to the translation), '
+    'hand-written LinSpaceVM.__init__ state (gvm_init) and command embedding',
 ]
 ASSUMPTIONS = [
     'generated voltages/coefficients are dyadic rationals of small magnitude: float arithmetic of builder, translator and '
     'VM is exact, and distinct factors differ by more than the increment resolution 1e-9 (DepKey rounding is injective)',
-    'loop index names are distinct along a nesting path; ranges do not depend on outer indices; durations are constants',
+    'ranges do not depend on outer indices; durations are constants (index-dependent durations are refused by the code: '
+    'observed and proved for the translated _add_hold_node); a loop index may be shadowed by an inner loop of the same name',
     'every hold defines exactly the channels of the builder channel tuple (subset/superset channel tuples are outside '
-    'the quantifier; observed: a missing channel shifts the remaining voltages to lower channel indices)',
+    'the quantifier; observed: a missing channel shifts the remaining voltages to lower channel indices); hardware outputs are '
+    'listed in the builder channel order (commands carry only the channel index)',
 ]
 
 CHANNEL_POOL = ['a', 'b', 'c']
@@ -1010,22 +1020,28 @@ MANIFEST = {
                   'whenever the modelled pipeline LinSpaceBuilder -> to_increment_commands -> LinSpaceVM returns a history it is '
                   'exactly the staircase of the source (same start times, same voltages as rationals, no NaN) with the same total '
                   'duration, for any fuel; hypotheses: one voltage per channel, steps <> 0, and no dependency-key collision by '
-                  'rounding (two different slopes of one channel within 1e-9).  Proof by a simulation invariant between translator '
-                  'state and VM ("register (channel,key) holds base + sum factors*indices"), a flat-VM loop lemma, and '
-                  'builder = unrolled source.  (2) the same for templates with loop-index rebinding mappings (scopes modelled).  (3) hardware scaling for ALL command lists.  (4) the increment kernel, and the '
-                  'definition translated from the current source text of DepState.required_increment_from equals the model '
-                  '(fail-closed translator, regenerated on every run).  (5) refutations: the round-1 statement is false without the '
-                  'key-collision guard.  The model is tied to /repo on every run by the exact '
+                  'rounding (two different slopes of one channel within 1e-9).  (2) the same for templates with loop-index rebinding '
+                  'mappings.  (3) hardware scaling for ALL command lists.  (4) ties to the CURRENT source text, regenerated on every '
+                  'run by a fail-closed translator: DepState.required_increment_from equals the model kernel; the command dataclasses, '
+                  'LinSpaceVM.change_state/step/set_commands (one translated step refines one model step under a state relation, same '
+                  'exception kinds; set_commands builds the label table the model searches for; run with fuel refines the model run) and '
+                  '_TranslationState.set_voltage/_set_indexed_voltage/_add_hold_node (append exactly the model commands, same state) are '
+                  'translated and proved against the model; C17_staircase_source_vm: the staircase theorem with the translated VM in '
+                  'place of the modelled one; index-dependent hold durations are refused (NotImplementedError).  (5) refutation: the '
+                  'round-1 statement is false without the key-collision guard.  The model is tied to /repo on every run by the exact '
                   'correspondence check (real pipeline vs model vs independently unrolled default Loop program).',
     'level_note': 'Trusted: Coq kernel/vm_compute; harness rendering of source terms to templates (cross-checked against the '
                   'default program on every case); qupulse Loop builder as reference; float arithmetic is exact on the generated '
-                  'dyadic values (decimal values are a separate stream compared within resolution x steps).  The theorem is about '
-                  'the hand-written model of builder/translator/VM (line-by-line, kernel additionally translated from source).  '
-                  'Repaired in /repo: count-1 repetition played twice, int voltages (round 1); repetition loops replaying '
-                  'entry-state dependent commands, zero-factor register aliasing plain voltages, AssertionError for a register '
-                  'shared across nesting depths, loop-index rebinding undone under a repetition, unused outputs shifting the '
-                  'hardware scaling of linspace commands (round 2).  No known finding left.',
-    'technique': 'Coq proof over a hand-written executable model (kernel translated from source) + exact correspondence check '
-                 'against the real pipeline',
+                  'dyadic values (decimal values are a separate stream compared within resolution x steps); the translator with its '
+                  'primitive table (GenLib.v), schemas and value semantics (aliasing is invisible to it).  Still only hand-modelled '
+                  '(tied by the correspondence check alone): the builder (hold_voltage, with_*), the node recursion '
+                  '(_add_iteration_node, _add_repetition_node incl. the entry-state snapshot, add_node), dependencies(), '
+                  'DepKey.from_voltages, _transform_linspace_commands.  Repaired in /repo: count-1 repetition played twice, int '
+                  'voltages (round 1); repetition entry state, zero-factor aliasing, register shared across depths, index rebinding '
+                  'under a repetition, unused outputs in the hardware scaling (round 2); shadowed loop index -> AssertionError (round 3, '
+                  'a68b904).  No known finding left.',
+    'technique': 'Coq proof over a hand-written executable model (VM step/set_commands, set_voltage, _set_indexed_voltage, '
+                 '_add_hold_node and the increment kernel translated from source and proved against it) + exact correspondence '
+                 'check against the real pipeline',
     'design_ref': 'DESIGN.md §5 C17',
 }
